@@ -206,6 +206,13 @@ struct wait_condition_s {
 
 /* If a waiter has waited this many times, it may set the MU_LONG_WAIT bit. */
 #define LONG_WAIT_THRESHOLD 30
+#if defined(NSYNC_VERIF) && defined(NSYNC_VERIF_LONG_WAIT_THRESHOLD)
+/* Verification hook (off unless NSYNC_VERIF is defined): lets a model-checking
+   harness build the library with a small threshold, so that the starvation
+   avoidance mechanism can be explored exhaustively. */
+#undef LONG_WAIT_THRESHOLD
+#define LONG_WAIT_THRESHOLD NSYNC_VERIF_LONG_WAIT_THRESHOLD
+#endif
 
 /* ---------- */
 
